@@ -204,9 +204,10 @@ class CFG:
                 return False
             cur = nxt
 
-    def every_path_passes(self, src, dst, through, drop_labels=()):
+    def every_path_passes(self, src, dst, through, drop_labels=(), avoid_edges=()):
         """True iff every path src -> dst contains a node of `through` (src/dst themselves excluded unless listed)."""
         through = set(through)
+        avoid_edges = set(avoid_edges)
         if src in through or dst in through:
             return True
         seen = set()
@@ -219,7 +220,7 @@ class CFG:
             if a == dst:
                 return False
             for b, lab in self.succ[a]:
-                if lab in drop_labels or b in through:
+                if lab in drop_labels or b in through or (a, lab) in avoid_edges:
                     continue
                 todo.append(b)
         return True
